@@ -6,6 +6,7 @@ import Mathlib.Tactic.Ring
 import Mathlib.Tactic.Linarith
 import Mathlib.Tactic.Positivity
 import Mathlib.Tactic.FieldSimp
+import Mathlib.Tactic.LinearCombination
 /-!
 # C10 — helper lemmas: Euclidean norm of `V3 ℝ`, rigid motions of points and vectors, indexing
 -/
@@ -230,6 +231,176 @@ theorem unitOr_neg {d : V3 ℝ} (h : d ≠ V3.zero) : unitOr (-d) = -unitOr d :=
     cases d; simp only [V3.neg_def, V3.zero, V3.mk.injEq, neg_eq_zero] at h0 ⊢; exact h0
   rw [unitOr_eq_smul h, unitOr_eq_smul h', norm3_neg]
   simp only [V3.smul, V3.neg_def]; congr 1 <;> ring
+
+/-! ## closest points of two segments: the scalar problem -/
+
+/-- the scalar algorithm of `segSegParams` -/
+noncomputable def ssp (a b c e f : ℝ) : ℝ × ℝ :=
+  let den := a * e - b * b
+  let s0 := if 0 < den then clip ((b * f - c * e) / den) 0 1 else 0
+  let t0 := (b * s0 + f) / e
+  if t0 < 0 then (clip (-c / a) 0 1, 0)
+  else if 1 < t0 then (clip ((b - c) / a) 0 1, 1)
+  else (s0, t0)
+
+theorem segSegParams_eq_ssp (p1 q1 p2 q2 : V3 ℝ) :
+    segSegParams p1 q1 p2 q2
+      = ssp (V3.dot (q1 - p1) (q1 - p1)) (V3.dot (q1 - p1) (q2 - p2)) (V3.dot (q1 - p1) (p1 - p2))
+          (V3.dot (q2 - p2) (q2 - p2)) (V3.dot (q2 - p2) (p1 - p2)) := rfl
+
+/-- squared distance of the points with parameters `s`, `t`, minus `r·r` -/
+def F (a b c e f s t : ℝ) : ℝ := 2 * s * c - 2 * t * f + s ^ 2 * a - 2 * s * t * b + t ^ 2 * e
+
+theorem F_expand (a b c e f s t s' t' : ℝ) :
+    F a b c e f s t - F a b c e f s' t'
+      = 2 * (c + a * s' - b * t') * (s - s') + 2 * (e * t' - b * s' - f) * (t - t')
+        + (a * (s - s') ^ 2 - 2 * b * (s - s') * (t - t') + e * (t - t') ^ 2) := by
+  simp only [F]; ring
+
+theorem Q_nonneg (a b e : ℝ) (ha : 0 < a) (hcs : b * b ≤ a * e) (x y : ℝ) :
+    0 ≤ a * x ^ 2 - 2 * b * x * y + e * y ^ 2 := by
+  have h : 0 ≤ a * (a * x ^ 2 - 2 * b * x * y + e * y ^ 2) := by
+    have : a * (a * x ^ 2 - 2 * b * x * y + e * y ^ 2) = (a * x - b * y) ^ 2 + (a * e - b * b) * y ^ 2 := by ring
+    rw [this]
+    exact add_nonneg (sq_nonneg _) (mul_nonneg (sub_nonneg.mpr hcs) (sq_nonneg _))
+  exact nonneg_of_mul_nonneg_right h ha |> fun h' => h'
+
+/-- variational characterisation of the clamp -/
+theorem clip_var (u s : ℝ) (hs0 : 0 ≤ s) (hs1 : s ≤ 1) : 0 ≤ (s - clip u 0 1) * (clip u 0 1 - u) := by
+  rw [clip_eq]
+  rcases le_total u 0 with h | h
+  · rw [max_eq_right h, min_eq_left zero_le_one]; nlinarith
+  · rw [max_eq_left h]
+    rcases le_total u 1 with h1 | h1
+    · rw [min_eq_left h1]; simp
+    · rw [min_eq_right h1]; nlinarith
+
+theorem clip_mem (u : ℝ) : 0 ≤ clip u 0 1 ∧ clip u 0 1 ≤ 1 := by
+  rw [clip_eq]; exact ⟨le_min (le_max_right _ _) zero_le_one, min_le_right _ _⟩
+
+theorem ssp_optimal (a b c e f : ℝ) (ha : 0 < a) (he : 0 < e) (hcs : b * b ≤ a * e)
+    (hpar : a * e - b * b = 0 → c * e - b * f = 0)
+    (s t : ℝ) (hs0 : 0 ≤ s) (hs1 : s ≤ 1) (ht0 : 0 ≤ t) (ht1 : t ≤ 1) :
+    F a b c e f (ssp a b c e f).1 (ssp a b c e f).2 ≤ F a b c e f s t := by
+  -- s0 and its variational inequality on the reduced function
+  set den := a * e - b * b with hden
+  have hden0 : 0 ≤ den := sub_nonneg.mpr hcs
+  set s0 := (if 0 < den then clip ((b * f - c * e) / den) 0 1 else 0) with hs0def
+  have hs0m : 0 ≤ s0 ∧ s0 ≤ 1 := by
+    rw [hs0def]; split_ifs
+    · exact clip_mem _
+    · exact ⟨le_refl _, zero_le_one⟩
+  -- (den * s0 - (b f - c e)) * (s' - s0) ≥ 0 for all s' in [0,1]
+  have hvar0 : ∀ s' : ℝ, 0 ≤ s' → s' ≤ 1 → 0 ≤ (s' - s0) * (den * s0 - (b * f - c * e)) := by
+    intro s' h0 h1
+    rw [hs0def]
+    split_ifs with hd
+    · have := clip_var ((b * f - c * e) / den) s' h0 h1
+      have e1 : den * clip ((b * f - c * e) / den) 0 1 - (b * f - c * e)
+          = den * (clip ((b * f - c * e) / den) 0 1 - (b * f - c * e) / den) := by
+        field_simp
+      rw [e1]
+      nlinarith [mul_nonneg (le_of_lt hd) this]
+    · have hz : den = 0 := le_antisymm (not_lt.mp hd) hden0
+      have := hpar hz
+      rw [hz]; nlinarith
+  set t0 := (b * s0 + f) / e with ht0def
+  have ht0e : t0 * e = b * s0 + f := by rw [ht0def]; field_simp
+  have hQ := Q_nonneg a b e ha hcs
+  show F a b c e f (ssp a b c e f).1 (ssp a b c e f).2 ≤ F a b c e f s t
+  have hssp : ssp a b c e f = if t0 < 0 then (clip (-c / a) 0 1, 0)
+      else if 1 < t0 then (clip ((b - c) / a) 0 1, 1) else (s0, t0) := rfl
+  rw [hssp]
+  split_ifs with hA hB
+  · -- t0 < 0: t* = 0, s* = clip (-c/a)
+    set s1 := clip (-c / a) 0 1 with hs1def
+    have hs1m := clip_mem (-c / a)
+    have hv1 := clip_var (-c / a) s hs0 hs1
+    have hv1' := clip_var (-c / a) s0 hs0m.1 hs0m.2
+    rw [← hs1def] at hs1m hv1 hv1'
+    have ca : -c / a * a = -c := by field_simp
+    have hphi0 : b * s0 + f < 0 := by nlinarith
+    -- key: b * s1 + f ≤ 0
+    have hkey : b * s1 + f ≤ 0 := by
+      by_contra hcon
+      have hcon := not_le.mp hcon
+      have h1 := hvar0 s1 hs1m.1 hs1m.2
+      -- (2): (c + a s1)(s0 - s1) ≥ 0
+      have h2 : 0 ≤ (s0 - s1) * (a * s1 + c) := by nlinarith [mul_nonneg (le_of_lt ha) hv1']
+      nlinarith [mul_pos ha he, sq_nonneg (s1 - s0), sq_nonneg (b * (s1 - s0))]
+    have hgs : 0 ≤ (c + a * s1 - b * 0) * (s - s1) := by nlinarith [mul_nonneg (le_of_lt ha) hv1]
+    have hgt : 0 ≤ (e * 0 - b * s1 - f) * (t - 0) := by nlinarith
+    have := F_expand a b c e f s t s1 0
+    have := hQ (s - s1) (t - 0)
+    simp only
+    linarith
+  · -- 1 < t0: t* = 1, s* = clip ((b-c)/a)
+    set s1 := clip ((b - c) / a) 0 1 with hs1def
+    have hs1m := clip_mem ((b - c) / a)
+    have hv1 := clip_var ((b - c) / a) s hs0 hs1
+    have hv1' := clip_var ((b - c) / a) s0 hs0m.1 hs0m.2
+    rw [← hs1def] at hs1m hv1 hv1'
+    have ca : (b - c) / a * a = b - c := by field_simp
+    have hphi0 : e < b * s0 + f := by nlinarith
+    have hkey : e ≤ b * s1 + f := by
+      by_contra hcon
+      have hcon := not_le.mp hcon
+      have h1 := hvar0 s1 hs1m.1 hs1m.2
+      have h2 : 0 ≤ (s0 - s1) * (a * s1 + c - b) := by nlinarith [mul_nonneg (le_of_lt ha) hv1']
+      nlinarith [mul_pos ha he, sq_nonneg (s1 - s0), sq_nonneg (b * (s1 - s0))]
+    have hgs : 0 ≤ (c + a * s1 - b * 1) * (s - s1) := by nlinarith [mul_nonneg (le_of_lt ha) hv1]
+    have hgt : 0 ≤ (e * 1 - b * s1 - f) * (t - 1) := by nlinarith
+    have := F_expand a b c e f s t s1 1
+    have := hQ (s - s1) (t - 1)
+    simp only
+    linarith
+  · -- interior in t
+    have hgt : e * t0 - b * s0 - f = 0 := by linarith
+    have hgs : 0 ≤ (c + a * s0 - b * t0) * (s - s0) := by
+      have h1 := hvar0 s hs0 hs1
+      have : (c + a * s0 - b * t0) * e = den * s0 - (b * f - c * e) := by
+        rw [hden]; linear_combination (-b) * ht0e
+      have h3 : 0 ≤ ((c + a * s0 - b * t0) * (s - s0)) * e := by nlinarith
+      exact nonneg_of_mul_nonneg_left h3 he
+    have := F_expand a b c e f s t s0 t0
+    have := hQ (s - s0) (t - t0)
+    simp only
+    rw [hgt] at *
+    nlinarith
+
+theorem dot_sq_le (u v : V3 ℝ) : V3.dot u v * V3.dot u v ≤ V3.dot u u * V3.dot v v := by
+  simp only [V3.dot]
+  nlinarith [sq_nonneg (u.x * v.y - u.y * v.x), sq_nonneg (u.x * v.z - u.z * v.x),
+    sq_nonneg (u.y * v.z - u.z * v.y)]
+
+/-- equality in Cauchy–Schwarz: parallel directions see every vector `r` proportionally -/
+theorem dot_parallel (d1 d2 r : V3 ℝ)
+    (h : V3.dot d1 d1 * V3.dot d2 d2 - V3.dot d1 d2 * V3.dot d1 d2 = 0) :
+    V3.dot d1 r * V3.dot d2 d2 - V3.dot d1 d2 * V3.dot d2 r = 0 := by
+  have hw : V3.dot (V3.smul (V3.dot d2 d2) d1 - V3.smul (V3.dot d1 d2) d2)
+      (V3.smul (V3.dot d2 d2) d1 - V3.smul (V3.dot d1 d2) d2) = 0 := by
+    have : V3.dot (V3.smul (V3.dot d2 d2) d1 - V3.smul (V3.dot d1 d2) d2)
+        (V3.smul (V3.dot d2 d2) d1 - V3.smul (V3.dot d1 d2) d2)
+        = V3.dot d2 d2 * (V3.dot d1 d1 * V3.dot d2 d2 - V3.dot d1 d2 * V3.dot d1 d2) := by
+      simp only [V3.dot, V3.smul, V3.sub_def]; ring
+    rw [this, h, mul_zero]
+  have hz := dot_self_eq_zero hw
+  have : V3.dot (V3.smul (V3.dot d2 d2) d1 - V3.smul (V3.dot d1 d2) d2) r = 0 := by
+    rw [hz]; simp [V3.dot, V3.zero]
+  rw [← this]
+  simp only [V3.dot, V3.smul, V3.sub_def]; ring
+
+theorem ssp_mem (a b c e f : ℝ) :
+    (0 ≤ (ssp a b c e f).1 ∧ (ssp a b c e f).1 ≤ 1) ∧ (0 ≤ (ssp a b c e f).2 ∧ (ssp a b c e f).2 ≤ 1) := by
+  simp only [ssp]
+  split_ifs with h1 h2 h3 h4 h5
+  all_goals
+    first
+    | exact ⟨clip_mem _, le_refl _, zero_le_one⟩
+    | exact ⟨clip_mem _, zero_le_one, le_refl _⟩
+    | exact ⟨clip_mem _, not_lt.mp h2, not_lt.mp h3⟩
+    | exact ⟨⟨le_refl _, zero_le_one⟩, not_lt.mp h4, not_lt.mp h5⟩
+
 
 end real
 end Brax.C10
